@@ -184,12 +184,17 @@ def seeds():
         if not meta.get('what_was_run', {}).get('caught_by'):
             print('seed %-28s (recorded as not caught; skipped)' % sid)
             continue
+        if meta.get('neutralised_by'):
+            # a later repair of /repo removed what the change relied on: it no longer breaks the property on the repaired tree
+            print('seed %-28s (no longer breaks the property since %s; skipped)' % (sid, meta['neutralised_by']))
+            continue
         chk = meta['what_was_run']['caught_by'][0]
         tmp = tempfile.mkdtemp(prefix='vseed-')
         try:
             repo = os.path.join(tmp, 'repo')
             subprocess.run(['git', 'clone', '-q', '--no-hardlinks', '/repo', repo], check=True)
-            subprocess.run(['git', 'apply', os.path.join(d, 'patch.diff')], cwd=repo, check=True)
+            if subprocess.run(['git', 'apply', os.path.join(d, 'patch.diff')], cwd=repo).returncode != 0:
+                subprocess.run(['git', 'apply', '--3way', os.path.join(d, 'patch.diff')], cwd=repo, check=True)
             env = dict(os.environ, VERIF_REPO=repo, VERIF_NO_EVIDENCE='1')
             p = subprocess.run([os.path.join(common.ROOT, 'check'), chk, 'quick'], cwd=common.ROOT, env=env, stdout=subprocess.PIPE, stderr=subprocess.STDOUT, text=True)
             caught = p.returncode == 1 and 'VIOLATION property=%s' % chk in p.stdout
